@@ -99,7 +99,7 @@ def topo_summary(V, F):
 
 
 CLOSED_POLY = ["tet", "octa", "icosa", "cube", "prism", "antiprism", "bipyramid"]
-BASES16 = ["grid", "grid", "cyl_u", "cyl_v", "torus", "torus", "delaunay", "fan_closed", "fan_open", "strip", "polygon"] + CLOSED_POLY
+BASES16 = ["torus", "grid", "grid", "cyl_u", "cyl_v", "torus", "delaunay", "fan_closed", "fan_open", "strip", "polygon"] + CLOSED_POLY + ["icosa", "octa"]
 
 
 def build_base16(name, a, b, big):
@@ -151,7 +151,7 @@ def trisurface(draw, big=False):
                 V, F = subdivide(V, F)
                 tags.append("subdivided")
     # connected sums: + torus raises the genus, + polyhedron keeps it
-    nsum = draw(st.sampled_from([0, 0, 0, 0, 1, 1, 2, 3]))
+    nsum = draw(st.sampled_from([0, 1, 0, 0, 0, 1, 2, 3]))
     for k in range(nsum):
         n2 = draw(st.sampled_from(["torus", "torus", "torus", "octa", "icosa", "tet"]))
         V2, F2 = build_base16(n2, draw(st.integers(0, 3)), draw(st.integers(0, 3)), False)
@@ -163,7 +163,11 @@ def trisurface(draw, big=False):
         if r is not None and G._valid(*r):
             V, F = r
             tags.append("sum=" + n2)
-    ops = draw(st.lists(st.tuples(st.sampled_from(["del", "del", "flip", "1to3", "esplit"]), st.integers(0, 5000)),
+    if big:
+        while len(F) < 300 and 4 * len(F) <= max_faces:
+            V, F = subdivide(V, F)
+            tags.append("subdivided")
+    ops = draw(st.lists(st.tuples(st.sampled_from(["flip", "del", "1to3", "esplit"]), st.integers(0, 5000)),
                         max_size=12 if big else 8))
     for (op, i) in ops:
         if len(F) >= max_faces:
@@ -175,7 +179,7 @@ def trisurface(draw, big=False):
         tags.append("op=" + op)
     V, F = largest_component(V, F)
     # geometry: jitter (breaks shortest-path ties) or not, optional folds (creases)
-    amp = draw(st.sampled_from([0.0, 0.0, 0.05]))
+    amp = draw(st.sampled_from([0.0, 0.05]))
     if amp:
         V = G.jitter(V, draw(st.integers(0, 1000)), amp)
         tags.append("jitter")
@@ -216,7 +220,7 @@ def cut_case(draw, big=False):
     nV = len(V)
     bv = sorted(ref.border_vertices())
     iv = sorted(set(range(nV)) - set(bv))
-    mode = draw(st.sampled_from(["none", "one", "adjacent", "adjacent", "random", "random", "random", "border", "mixed",
+    mode = draw(st.sampled_from(["random", "none", "one", "adjacent", "adjacent", "random", "random", "border", "mixed",
                                  "cluster", "all"]))
     S = []
     if mode == "one":
@@ -248,7 +252,7 @@ def cut_case(draw, big=False):
             k = _pick(draw, len(S))
             S = S[k:] + S[:k]
     S = list(dict.fromkeys(S))
-    feat = draw(st.sampled_from(["none", "none", "detect", "detect", "detect+hard", "only_border"]))
+    feat = draw(st.sampled_from(["detect", "none", "none", "detect", "detect+hard", "only_border"]))
     hard = []
     if feat == "detect+hard":
         inner = sorted(e for e in ref.uedges if not ref.edge_on_border(*e))
